@@ -572,7 +572,7 @@ def run(ctx):
     from pv.gen import num
 
     warnings.filterwarnings("ignore")
-    N = ctx.n(700, 48000)
+    N = ctx.n(700, 24000)
     indices = range(ctx.shard, N * ctx.nshards, ctx.nshards)
     if ctx.only_case is not None:
         indices = [ctx.only_case]
